@@ -337,7 +337,13 @@ impl<'a> CompilerState<'a> {
         let varname = px.as_str();
         let subscript = match p.next() {
             Some(pair) => {
+                let pos = pair.as_span().start();
                 let expr = self.parse_expr_ex(pair.into_inner(), self.literal_counter)?;
+                // The literals met in a subscript are not stored: their names would be left
+                // for the next literal of the program
+                if !expr.1.is_empty() {
+                    return Err(self.syntax_error("No string literal in a subscript", pos));
+                }
                 Box::new(expr.0)
             }
             None => Box::new(Expr::Nothing),
